@@ -115,7 +115,7 @@ def build(b, debug):
 
 GARBAGE = ['1+', '((', '"x', u'§', '#FOO', 'SUM(', '1 2', 'NOSUCH(1)+1', 'SYN(1)', 'BOOM(2)', '1/0', 'SUM(1/0)', 'nosuch', '#N/A', 'A1:B2:C3', '{1,2', '}{', ',', ';;', 'x y', 'TRUE(',
            'IF(,,)', 'ACOS(2)', 'BASE(5,2)', 'CONCATENATE(1/0)', 'INNER(1)', '- -', '<>', '&&', 'ERRR(1)+1', 'IFERROR(ERRR(1),2)', 'SYN(1)+1', 'Z9+BOOM()', 'MAX(NA())', '#REF!+1', '',
-           'INDEX(lst,99)', 'lst+{1,2}', 'NOW()', 'RAND()', 'TODAY()', 'RANDBETWEEN(1,9)', '1+1', 'foo', 'A1', 'A1:B2', 'CF(A1,B2:C3,foo)']
+           'INDEX(lst,99)', 'lst+{1,2}', '{1,2;3,4)', 'CF(1,2;3,4}', '{1,2;3,4;5 6}', 'BOOM(1,2;3,4)', '{1;2;', 'FACT(2000)&""', 'CONCATENATE(FACT(1800),1)', 'NOW()', 'RAND()', 'TODAY()', 'RANDBETWEEN(1,9)', '1+1', 'foo', 'A1', 'A1:B2', 'CF(A1,B2:C3,foo)']
 
 
 class Check(BaseCheck):
@@ -147,15 +147,35 @@ class Check(BaseCheck):
         specs.append({'campaign': 'retention', 'K': 600 if q else 3000, 'R': 8 if q else 30, 'seed': seed, 'mix': 'fresh'})
         return specs
 
+    @staticmethod
+    def process_settings():
+        """interpreter- and process-wide settings an evaluation has no business changing (they outlive it and reach every other parser)"""
+        import decimal, locale, os, signal, threading, warnings
+        out = {'int_max_str_digits': sys.get_int_max_str_digits() if hasattr(sys, 'get_int_max_str_digits') else None, 'recursionlimit': sys.getrecursionlimit(),
+               'switchinterval': sys.getswitchinterval(), 'decimal.prec': decimal.getcontext().prec, 'decimal.rounding': decimal.getcontext().rounding,
+               'locale': locale.setlocale(locale.LC_ALL), 'environ': hash(tuple(sorted(os.environ.items()))), 'sys.path': tuple(sys.path), 'cwd': os.getcwd(),
+               'excepthook': id(sys.excepthook), 'threading.excepthook': id(threading.excepthook), 'gc.enabled': gc.isenabled(), 'gc.threshold': gc.get_threshold(),
+               'warnings.filters': len(warnings.filters), 'stdout': id(sys.stdout), 'tz': __import__('time').tzname, 'umask': None,
+               'sigint': id(signal.getsignal(signal.SIGINT)), 'sigalrm': id(signal.getsignal(signal.SIGALRM)), 'default_timeout': __import__('socket').getdefaulttimeout(),
+               'stack_size': threading.stack_size(), 'displayhook': id(sys.displayhook), 'float_repr_style': sys.float_repr_style}
+        return out
+
     def run(self, spec, rec):
         env.load()
         self.rec = rec
         old = sys.stderr
         sys.stderr = io.StringIO()
+        before = self.process_settings()
         try:
             getattr(self, 'c_' + spec['campaign'])(spec, rec)
         finally:
             sys.stderr = old
+        after = self.process_settings()
+        rec.case()
+        rec.count('process_settings_compared', len(before))
+        for k in before:
+            if before[k] != after[k]:
+                rec.violation('C02/evaluation-changed-a-process-wide-setting:' + k, setting=k, before=before[k], after=after[k], campaign=spec['campaign'])
 
     # ------------------------------------------------------------------ probes
     def probes(self, rnd, n):
@@ -163,7 +183,7 @@ class Check(BaseCheck):
         g8 = C08.Gen(rnd)
         g10 = C10.Gen(rnd)
         fixed = ['1+2*3', 'SUM(1,2,{3,4})', '"a"&"b"', 'IF(xa>2,"big","small")', 'A1+B2', 'MAX(A1:B2)', '1/0', 'nosuch', 'NOSUCH(1)', '1+', 'ROMAN(1999)', 'DATE(2020,1,1)+5',
-                 'COUNTIF({"ab","cd"},"ab")', '-xa', 'BOOM(1)', 'SYN(1)+1', 'INNER(2)*3', 'INNER(2)+foo+A1', 'INNER(1)&txt&Z9', 'INNER(2)+CF(1)+SUM(A1:B2)', '{1,2;3,4}', '#REF!', '"abc', '2^3+50%', 'foo', 'foo*2', 'CF(lst)', 'SUM(lst)', 'TWICE(foo)',
+                 'COUNTIF({"ab","cd"},"ab")', '{1;2;3}', 'CF(1;2)', 'SUM(1;2;3)', 'CF({1;2};{3;4})', '-xa', 'BOOM(1)', 'SYN(1)+1', 'INNER(2)*3', 'LEN(FACT(2000))', 'UPPER(FACT(1700))', 'INNER(2)+foo+A1', 'INNER(1)&txt&Z9', 'INNER(2)+CF(1)+SUM(A1:B2)', '{1,2;3,4}', '#REF!', '"abc', '2^3+50%', 'foo', 'foo*2', 'CF(lst)', 'SUM(lst)', 'TWICE(foo)',
                  'ERRR(1)', 'IFERROR(ERRR(1),7)', 'SUM(tup)', 'tup', 'CF(tup)', 'SUM(tup_rows)', 'MAX(tup_one)', 'COUNT(empty_tup)', 'INDEX(tup,2)', 'xa+SUM(tup)', 'TEXTJOIN(",",TRUE,txt,"c")', 'INDEX(lst,2)', 'LARGE({3,1,2},1)', 'MATCH(2,{1,2,3},0)', 'EDATE(DATE(2020,1,31),1)', 'Z9',
                  # probes that fail through every kind of python exception inside the evaluation
                  'COT(0)', 'LOG(8,1)', 'ACOTH(1)', 'POWER(0,-1)', 'SQRT(-1)', 'CHOOSE(1.5,1,2)', '-"a"', 'LEFT("abc","x")', 'FACT("z")', 'DATE(2020,13,45)', 'CHAR(-1)', 'CODE("")',
@@ -362,6 +382,10 @@ class Check(BaseCheck):
                 out.append('%s(%s)' % (fn, arr))
                 out.append('%s(%s,1)' % (fn, arr))
         out += [f for f in self.probes(rnd, 200)]
+        # numbers at the interpreter's own limits (an integer of more than 4300 digits cannot be turned into text): whatever happens, it happens
+        # in every order alike
+        out += ['FACT(2000)&""', 'CONCATENATE(FACT(1800),"x")', 'LEN(FACT(2000))', 'UPPER(FACT(1700))', 'FACT(2000)+1', 'LEN(FACT(1500))', 'LEN(FACT(1558))', 'LEN(FACT(1559))',
+                'TEXTJOIN(",",TRUE,FACT(1600)&"")', 'FACT(1999)&FACT(3)', 'LOWER(FACT(1600))', 'ISERROR(LEN(FACT(1990)))', 'SUM(FACT(1800),1)', 'FACT(170)&""', '10^308*10', '2^1023*2']
         # operators over values that are equal-but-differently-typed (1, TRUE, 1.0, "1" ...): an untyped cache shows here
         atoms = ['1', 'TRUE', '1.0', '"1"', '0', 'FALSE', '0.0', '""', 'NULL', '2', '"a"', '-1', 'DATE(2020,1,1)', '43831', '{1,2}', 'lst']
         for a in atoms:
